@@ -284,6 +284,9 @@ def _mk():
     def b_getattr(it, a, k, n):
         v, name = a[0], a[1]
         if not isinstance(name, str):
+            if isinstance(name, (int, sp.Basic)) and not isinstance(name, bool):
+                it.log("raise", n, exc="TypeError")  # attribute name must be string
+                return BOTTOM
             return Unknown("getattr with non-literal name")
         if isinstance(v, Obj) and name not in v.attrs and len(a) > 2:
             if v.cls is not None and it.class_attr(v.cls, name) is not None:
